@@ -79,7 +79,11 @@ def _nv_getitem(interp, self, args, kwargs):
     nd = args[0]
     if not isinstance(nd, Node):
         raise Unsupported("G.nodes[x] with x not a node value")
-    if not interp.ctx.branch(z3.And(nd.z >= 0, nd.z < zint(self.g.n)), "node-in-graph"):
+    ok = z3.And(nd.z >= 0, nd.z < zint(self.g.n))
+    guards = getattr(interp.ctx, "guard_stack", None)
+    if guards:
+        guards[-1].append(ok)         # inside a comprehension / sort key: collected, proved once for every position
+    elif not interp.ctx.branch(ok, "node-in-graph"):
         raise PyRaise("KeyError", "node not in graph")
     return AttrDict(self.g, nd)
 
@@ -169,3 +173,73 @@ def _g_add_node(interp, self, args, kwargs):
     g.n = z3.simplify(n0 + 1)
     g.added = getattr(g, "added", 0) + 1
     return NONE
+
+
+# ---------------------------------------------------------------------------------------------
+# arrays whose rows are node coordinates or node attributes: np.array(list of nodes / attribute values) is a 2-D array with one
+# row per element; the model keeps the row *identities* (which node, which attribute) and the number of columns
+# ---------------------------------------------------------------------------------------------
+
+class AttrRow(Val):
+    """the value of attribute `name` of node z (an opaque row of numbers)"""
+
+    def __init__(self, name, z):
+        self.name = name
+        self.z = zint(z)
+
+
+class NodeRows(Val):
+    def __init__(self, vec, cols):
+        self.vec = vec          # Vec of Node / AttrRow
+        self.cols = cols
+
+
+def _node_rows_hook(interp, x):
+    if not isinstance(x, Vec) or x.elem != "obj":
+        return None
+    n = conc(x.length)
+    if n == 0:
+        return None
+    ctx = interp.ctx
+    pk = ctx.int("probe")
+    ctx.binder_stack.append([])
+    try:
+        e = vget(ctx, x, pk if n is None else 0)
+    finally:
+        ctx.binder_stack.pop()
+    if not isinstance(e, (Node, AttrRow)):
+        return None
+    cols = getattr(ctx, "node_dim", None)
+    if cols is None:
+        raise Unsupported("np.array of graph nodes without a known dimension")
+    return NodeRows(ops.vec_copy(ctx, x, kind="ndarray"), cols)
+
+
+from .lib_np import NP_ARRAY_HOOKS
+NP_ARRAY_HOOKS.append(_node_rows_hook)
+
+
+@method("NodeRows", "@shape")
+def _nr_shape(interp, self, args, kwargs):
+    return Tup([Num(zint(self.vec.length), True), Num(zint(self.cols), True)])
+
+
+@method("NodeRows", "__len__")
+def _nr_len(interp, self, args, kwargs):
+    return Num(zint(self.vec.length), True)
+
+
+@method("NodeRows", "__iter__")
+def _nr_iter(interp, self, args, kwargs):
+    return self.vec
+
+
+@method("NodeRows", "__getitem__")
+def _nr_getitem(interp, self, args, kwargs):
+    idx = args[0]
+    if isinstance(idx, tuple) and idx[0] == "slice":
+        from .lib_py import vec_slice
+        return NodeRows(vec_slice(interp, self.vec, idx[1], idx[2], idx[3]), self.cols)
+    if isinstance(idx, Num):
+        return METHODS[("vec", "__getitem__")](interp, self.vec, [idx], {})
+    raise Unsupported("indexing an array of node rows")
